@@ -579,3 +579,39 @@ def stale_loop_variable(ctx, rule, fis):
                    f"the loop at line {lp.lineno} reads {sorted(stale)}, last assigned inside an earlier loop: every iteration uses the value of "
                    "that loop's final row", fi.loc(lp))
     return n
+
+
+def dead_local_stores(ctx, rule, fis, ignore=("_",)):
+    """A plain local name that a function assigns and never reads (nor returns, nor closes over) is a computation whose result
+    is lost - typically a clamp / filter / copy whose original is used afterwards instead.  One obligation per function."""
+    import ast
+    n = 0
+    for fi in fis:
+        stores, loads = {}, set()
+        for x in ast.walk(fi.node):
+            if isinstance(x, ast.Name):
+                if isinstance(x.ctx, ast.Store):
+                    stores.setdefault(x.id, x)
+                else:
+                    loads.add(x.id)
+            elif isinstance(x, (ast.Global, ast.Nonlocal)):
+                loads |= set(x.names)
+        # names bound by for / with / except / comprehension targets and tuple unpacking are conventional throw-aways
+        conventional = set()
+        for x in ast.walk(fi.node):
+            if isinstance(x, (ast.For, ast.comprehension)):
+                conventional |= {y.id for y in ast.walk(x.target) if isinstance(y, ast.Name)}
+            if isinstance(x, ast.Assign):
+                for t in x.targets:
+                    if isinstance(t, (ast.Tuple, ast.List)):
+                        conventional |= {y.id for y in ast.walk(t) if isinstance(y, ast.Name)}
+            if isinstance(x, ast.withitem) and x.optional_vars is not None:
+                conventional |= {y.id for y in ast.walk(x.optional_vars) if isinstance(y, ast.Name)}
+            if isinstance(x, ast.ExceptHandler) and x.name:
+                conventional.add(x.name)
+        dead = sorted(k for k in stores if k not in loads and k not in conventional and not k.startswith(ignore))
+        n += 1
+        ctx.ob(rule, f"{fi.module.name}::{fi.qualname}::dead-stores", not dead,
+               "every assigned local is used" if not dead else
+               f"local(s) {dead} are assigned and never read: the computed value is lost and the original object is used instead", fi.loc(stores[dead[0]]) if dead else fi.loc())
+    return n
